@@ -252,6 +252,7 @@ func (c *c06) guarded(name string, inLen int, f func()) {
 	}
 	w.opFacts = nil
 	w.Count("calls_" + name)
+	w.Sig(faultClass(c.fault) + ">" + name)
 }
 
 func faultClass(f string) string {
